@@ -165,10 +165,14 @@ def run_bm(case):
     fl = bmgen.flags_for(cfg)
     orig = bi._randn
 
+    odd_sizes = []
+
     def perturbed(size, dtype, device, seed):
         out = orig(size, dtype, device, seed)
         if tuple(size) == tuple(shape):
             out[idx] += 0.75
+        elif tuple(size) != tuple(shape) + tuple(shape[-1:]):
+            odd_sizes.append(tuple(size))  # neither the sample shape nor the Levy-area noise shape (*shape, m)
         return out
 
     def run(fn):
@@ -177,12 +181,28 @@ def run_bm(case):
             return [bm(a, b, **fl) for (a, b) in qs if a < b]
 
     A0, A1 = run(orig), run(perturbed)
+    # (observation only: an implementation may draw its normals at any shape as long as every element gets its own)
+    cnt["bm_draws_at_other_than_sample_shape"] = len(odd_sizes)
+    # independent continuous noise never produces two bit-identical elements in one sample: duplicated values mean
+    # that elements (rows) share a noise element
+    for o0 in A0:
+        W = o0 if torch.is_tensor(o0) else o0[0]
+        flat = W.flatten()
+        cnt["bm_distinct_element_checks"] = cnt.get("bm_distinct_element_checks", 0) + 1
+        if flat.numel() > 1 and torch.unique(flat).numel() < flat.numel():
+            viol.append({"mechanism": "sample_elements_share_noise",
+                         "detail": f"shape={shape} levy={levy}: a W sample has only {torch.unique(flat).numel()} distinct "
+                                   f"values among {flat.numel()} elements; cfg={cfg}"})
+            return {"violations": viol, "counters": cnt}
+    moved = False
     for o0, o1 in zip(A0, A1):
         o0 = (o0,) if torch.is_tensor(o0) else o0
         o1 = (o1,) if torch.is_tensor(o1) else o1
         names = ["W"] + (["U"] if fl["return_U"] else []) + (["A"] if fl["return_A"] else [])
         for nm, x0, x1 in zip(names, o0, o1):
             diff = (x0 != x1)
+            if nm == "W" and bool(diff[idx]):
+                moved = True
             if nm in ("W", "U"):
                 mask = torch.zeros_like(diff)
                 mask[idx] = True
@@ -199,6 +219,10 @@ def run_bm(case):
                              "detail": f"shape={shape} levy={levy} perturbed element {idx}: "
                                        f"{int((diff & ~mask).sum())} other elements changed; cfg={cfg}"})
                 return {"violations": viol, "counters": cnt}
+    if A0 and not moved:
+        viol.append({"mechanism": "element_not_driven_by_its_own_noise_element",
+                     "detail": f"shape={shape} levy={levy}: perturbing noise element {idx} of every draw changed W{idx} in "
+                               f"none of {len(A0)} queries; cfg={cfg}"})
     return {"violations": viol, "counters": cnt, "max": {}, "nontrivial": len(A0) >= 5,
             "sample": {"shape": shape, "levy": levy, "queries": len(A0), "perturbed_element": list(idx)}}
 
